@@ -80,6 +80,9 @@ func ValidateAgainstSingleSchema(values Values, schemaJSON []byte) (reterr error
 	slog.Debug("unmarshalled JSON schema", "schema", schemaJSON)
 
 	compiler := jsonschema.NewCompiler()
+	// Only the in-memory values.schema.json (and the embedded draft meta-schemas) may be used:
+	// an empty scheme table makes every external $ref / $schema fail instead of reading host files.
+	compiler.UseLoader(jsonschema.SchemeURLLoader{})
 	err = compiler.AddResource("file:///values.schema.json", schema)
 	if err != nil {
 		return err
